@@ -2,8 +2,7 @@
    EstimatesExtraction state machines) over the operation sequence of each
    case and prints, after every operation, the returned pair and the state, in
    the same format as cpp/h_C17.cpp.  It also prints spec-level values used by
-   the oracle (spec_* fields): the base statistic of every extract call and
-   the coded map scores. *)
+   the checks (spec_mapvalues<k>): the coded map scores of every extract/5. *)
 
 let methods = [| "mean"; "smean"; "wmean"; "emean"; "mode"; "smode"; "wmode"; "emode"; "map"; "smap"; "wmap"; "emap" |]
 let method_values = [| Mmean; Msmean; Mwmean; Memean; Mmode; Msmode; Mwmode; Memode; Mmap; Msmap; Mwmap; Memap |]
@@ -44,9 +43,6 @@ let run_est (c : Caseio.case) =
           let w = vec_of (Caseio.get_mat c ("W" ^ ks)) in
           let n = List.length w in
           let ps = cols_of (Caseio.get_mat c ("P" ^ ks)) n in
-          (* spec-level base statistics of this call *)
-          out_vec ("spec_mean" ^ ks) (c17_mean fops nl nc ps w);
-          out_vec ("spec_mode" ^ ks) (c17_mode fops ps w);
           if o = "e2" then OExtract2 (ps, w)
           else begin
             let pw = vec_of (Caseio.get_mat c ("PW" ^ ks)) and l = vec_of (Caseio.get_mat c ("L" ^ ks)) in
@@ -77,13 +73,6 @@ let run_est (c : Caseio.case) =
       out_vec ("smw" ^ ks) sm; out_vec ("wmw" ^ ks) wm; out_vec ("emw" ^ ks) em)
     ops;
   Caseio.out_int "info_window" (int_of_nat (c17_window fops !st));
-  (* closed-form window weights (log domain) for every length, for the oracle *)
-  List.iter
-    (fun (nm, v) ->
-      for n = 1 to 30 do
-        out_vec (Printf.sprintf "spec_w_%s_%d" nm n) (c17_win_weights fops v (nat_of_int n))
-      done)
-    (if Caseio.meta c "specw" = "1" then [ ("s", Wsimple); ("w", Wweighted); ("e", Wexponential) ] else []);
   Caseio.out_end ()
 
 let run_hb (c : Caseio.case) =
